@@ -137,6 +137,26 @@ def seq_enumerated():
     T('ret-byte-bool', "write(rb(x)); sleep(rt(x, y) is int);", extra="byte rb(int v) { return v is byte; }\nbool rt(int a, int b) { return a < b; }\n")
     T('terminal-calls', "if (x > 0) { write('w'); all_is_win(); } if (y > 0) { write('b'); all_is_broken(); } write('e');")
     T('flags', "debug(); progress(); sleep(x); debug();")
+    # an array literal creates a NEW array each time it is evaluated (second call / next iteration / recursion sees fresh contents)
+    T('fresh-literal-calls', "sleep(bumpl(x)); sleep(bumpl(y)); sleep(bumpl(1));", extra="int bumpl(int v) { int[] a = [1, 2, 3]; a[0] += v; a[2] = a[0] + a[1]; return a[2]; }\n")
+    T('fresh-literal-loop', "for (int i = 0; i < 3; i += 1) { int[] a = [5, 6]; byte[] t = [0, 0]; bool[] s = [false, false]; sleep(a[0]); write('0' + t[1]); sleep(s[0] is int); a[0] = x + i; t[1] = 7; s[0] = true; }")
+    T('fresh-literal-rec', "sleep(recl(x % 3));", extra="int recl(int n) { int[] a = [10, 20]; if (n > 0) { a[0] = recl(n - 1) + 1; } a[1] += a[0]; return a[1]; }\n")
+    T('fresh-literal-bytes', "write(tag(x)); write(tag(y)); write(tag(0));", extra="byte tag(int v) { byte[] t = ['a', 'b']; t[0] += v is byte; t[1] = t[0]; return t[1]; }\n")
+    T('fresh-literal-strings', "write(nm(x)); write(nm(0));", extra="string nm(int v) { string[] t = [\"p\", \"q\"]; if (v > 0) { t[0] = \"Z\"; } return t[0]; }\n")
+    # writing empty byte arrays / strings of every storage class (run-time length 0, constant length 0)
+    T('write-empty-vla', "int n = x % 3; byte buf[n]; for (int i = 0; i < n; i += 1) { buf[i] = ('a' + i) is byte; } write('['); write(buf); write(']'); writeln(buf); sleep(buf.length);")
+    T('write-empty-consts', "write('['); write(ke); write(']'); writeln(ke); const byte[] le = []; write(le); show(le); show(ke); show(\"\"); show(\"\" is byte[]); write(\"\"); write(']'); byte[] me = []; write(me); writeln(me); sleep(ke.length + le.length + me.length);",
+      extra="const byte[] ke = [];\nempty show(const byte[] a) { write('<'); write(a); write('>'); }\n")
+    T('write-empty-arg-bytes', "write('['); write(xs); write(']'); writeln(xs); sleep(xs.length);", sig='byte[] xs', xs=0)
+    T('write-empty-arg-string', "write('['); write(s); write(']'); writeln(s); write(s is byte[]); sleep(s.length);", sig='string s', s=[0])
+    T('write-empty-arg-cbytes', "write('['); write(cs); write(']'); writeln(cs); sleep(cs.length);", sig='const byte[] cs', cs=0)
+    # lexical scoping: a local that shadows a global dies with its block, however the block is left
+    for ex in ('break', 'continue', 'return'):
+        T('shadow-exit-' + ex, "sleep(sh(x)); sleep(g); g += 1; sleep(g);",
+          extra="int sh(int v) { for (int i = 0; i < 2; i += 1) { if (i == v) { int g = 50; g += i; sleep(g); %s; } sleep(g); g += 10; } sleep(g); g += 100; return g; }\n" % ('return g' if ex == 'return' else ex))
+    T('shadow-exit-bare-block', "sleep(sb(x)); sleep(g);", extra="int sb(int v) { while (true) { { byte gb = 'q'; int g = v; if (g > 0) { break; } } g += 1; gb = 9; break; } g += 5; write(gb); return g; }\n")
+    T('shadow-exit-try', "sleep(@st(x)); sleep(g);", extra="int @st(int v) { for (int i = 0; i < 2; i += 1) { try { int g = v; !truth_is_defeat(g > 5); if (g > 0) { continue; } } undo { int g = 70; sleep(g); break; } g += 3; } g += 20; return g; }\n")
+    T('shadow-param-and-nested', "sleep(sp(x, y)); sleep(g); sleep(K);", extra="int sp(int g, int K) { if (g > K) { return g + K; } g += 1; { int q = 2; g += q; } return g * K; }\n")
     return out
 
 
@@ -439,6 +459,13 @@ def time_enumerated(tier='quick'):
         T('shared-own-defeat-%s-then-%s' % (first, second),
           "try { write('a'); !mine(x); write('b'); } %s { write('c'); } @later(y); @later(x); write('.');" % first,
           extra="empty !mine(int a) { write('m'); !truth_is_defeat(a > 1); write('M'); }\nempty @later(int v) { try { write('A'); !mine(v); write('B'); } %s { write('C'); } }\n" % second)
+    # a constant argument of !truth_is_defeat (folded by the compiler) inside a defeat function, as the first defeat site of a try
+    for h in ('undo', 'stop'):
+        for kname, kexpr in (('lit-true', 'true'), ('lit-false', 'false'), ('const-global', 'KT'), ('folded', '1 < 2'), ('const-local', 'kl')):
+            T('const-defeat-%s-%s' % (kname, h), "try { write('a'); if (x > 9) { !cd(); } write('b'); } %s { write('c'); } write('.');" % h,
+              extra="const bool KT = true;\nempty !cd() { const bool kl = true; write('d'); !truth_is_defeat(%s); write('e'); }\n" % kexpr)
+        T('const-defeat-direct-%s' % h, "try { write('a'); if (x > 9) { !truth_is_defeat(KT); } !truth_is_defeat(false); write('b'); } %s { write('c'); } write('.');" % h, extra="const bool KT = true;\n")
+        T('const-defeat-you-%s' % h, "@w(x); write('.');", extra="const bool KT = true;\nempty !cd() { write('d'); !truth_is_defeat(KT); }\nempty @w(int v) { try { if (v > 9) { !cd(); } write('b'); } %s { write('c'); } }\n" % h)
     # preempt varieties
     T('preempt-two', "try { preempt { write('1'); x = 0; } preempt { write('2'); y = 0; } !truth_is_defeat(x > 0 or y > 0); write('n'); } undo { write('u'); } write('.');")
     T('preempt-nested', "try { preempt { write('1'); preempt { write('2'); y = 0; } x = 0; } !truth_is_defeat(x > 0); !truth_is_defeat(y > 0); write('n'); } undo { write('u'); } write('.');")
@@ -717,6 +744,11 @@ def fault_templates():
         T('div-const-left-%s' % ('div' if op == '/' else 'mod'), "empty @is_you(int b) { write('p'); sleep(100 %s b); write('q'); }\n" % op)
         T('div-in-cond-%s' % ('div' if op == '/' else 'mod'), "empty @is_you(int a, int b) { write('p'); if (a %s b > 1) { write('T'); } else { write('F'); } write('q'); }\n" % op)
         T('div-in-defeat-%s' % ('div' if op == '/' else 'mod'), "empty @is_you(int a, int b) { write('p'); try { !truth_is_defeat(a %s b > 1); write('n'); } undo { write('u'); } write('q'); }\n" % op)
+    for op in ('/', '%'):
+        nm = 'div' if op == '/' else 'mod'
+        T('div-const-zero-%s' % nm, mark + "const int zero = 0;\nempty @is_you(int a, byte b) { write('p'); if (a > 5) { sleep(mi('l', a) %s 0); } if (a < -5) { sleep(a %s zero); } if (a == 1) { sleep(b %s (3 - 3)); } write('q'); }\n" % (op, op, op))
+        T('div-const-zero-assign-%s' % nm, "const int zero = 0;\nint gq = 7;\nempty @is_you(int a) { int x = a; int[] v = [a, 2]; write('p'); if (a > 5) { x %s= 0; } if (a < -5) { v[1] %s= zero; } if (a == 1) { gq %s= 0; } sleep(x); write('q'); }\n" % (op, op, op))
+        T('div-const-nonzero-%s' % nm, "const int two = 2;\nempty @is_you(int a) { write('p'); sleep(a %s 2); sleep(a %s two); sleep(a %s (-1)); sleep(a %s 1); write('q'); }\n" % (op, op, op, op))
     # index faults: read / write / compound, int / byte / bool arrays, stack / global / const / parameter, strings
     for el, lit, cast in (('int', '[1, 2, 3]', ''), ('byte', "['a', 'b', 'c']", ''), ('bool', '[true, false, true]', ' is int')):
         obs = {'int': 'sleep(%s);', 'byte': 'write(%s);', 'bool': 'sleep((%s) is int);'}[el]
@@ -796,6 +828,11 @@ def scope_templates():
     T('call-in-literal', "int[] keep = [7, 8]; int[] a = [two(x), two(y), keep[0]]; sleep(a[0] + a[1] + a[2]);", extra="int two(int v) { int[] a = [v, v]; return a[1] * 2; }\n")
     T('passed-array', "int[] a = [x, y, 3]; for (int i = 0; i < y % 3; i += 1) { upd(a, i); } sleep(a[0] + a[1] + a[2]);", extra="empty upd(int[] v, int i) { int[] tmp = [v[i], 1]; v[i] = tmp[0] + tmp[1]; }\n")
     T('while-vla-grow', "int n = 0; while (n < y % 4) { int a[n + 1]; a[n] = n; n += 1; sleep(a[n - 1]); } sleep(n);")
+    T('return-expr-allocates', "sleep(f(x)); sleep(f(y));", extra="int pick(const int[] a, const int[] b, int i) { return a[i] * 100 + b[i]; }\nint f(int v) { int[] a = [v, v + 1, v + 2]; return pick(a, [v + 7, 8, 9], 1) + a[2]; }\n")
+    T('return-expr-callee-array', "sleep(f(x));", extra="int g(int v) { int[] t = [v * 2, 77, 78]; return t[0] + t[2]; }\nint f(int v) { int[] a = [v, v + 1, v + 2]; byte[] b = ['a', 'b']; return g(v) + a[1] + a[2] * b[1]; }\n")
+    T('return-expr-literal-index', "sleep(f(x, y));", extra="int f(int v, int w) { int[] a = [v, w]; if (v > w) { return [w, v, 3][1] + a[0]; } bool[] c = [v > 0, w > 0]; return [9, 8][0] * a[1] + (c[1] is int); }\n")
+    T('return-byte-expr-allocates', "write(f(x));", extra="byte last(const byte[] s) { return s[s.length - 1]; }\nbyte f(int v) { byte[] a = [v is byte, 'k']; return last(a) + last([1, 2, v is byte]) + a[0]; }\n")
+    T('return-in-loop-allocates', "sleep(f(x));", extra="int s2(const int[] a) { return a[0] + a[1]; }\nint f(int v) { for (int i = 0; i < 3; i += 1) { int[] a = [i, v]; if (i == v % 3) { return s2(a) * 10 + s2([a[1], a[0] + 1]); } } return 0; }\n")
     T('rec-arrays', "sleep(rec(x % 3));", extra="int rec(int n) { int[] a = [n, n + 1]; if (n <= 0) { return a[1]; } int r = rec(n - 1); return r + a[0]; }\n")
     return out
 
@@ -817,6 +854,8 @@ def alloc_templates():
     for el in ('int', 'byte', 'bool', 'string'):
         T('vla-' + el, "int n = x; %s v[n]; write('k'); sleep(v.length);" % el)
         T('vla-after-lit-' + el, "int[] a = [1, 2, 3]; %s v[x]; write('k'); sleep(a[2]); sleep(v.length);" % el)
+    for el, val in (('bool', 'true'), ('int', '5'), ('byte', "'z'")):
+        T('vla-store-canary-' + el, "int canary = 1001; %s flags[x]; int after = 2002; write('k'); if (y >= 0 and y < 3) { flags[y] = %s; } sleep(canary); sleep(after);" % (el, val))
     T('vla-two', "int a[x]; int b[y]; write('k'); sleep(a.length + b.length);")
     T('vla-then-array', "int n = x % 3; if (n < 1) { n = 1; } int a[n]; a[n - 1] = 7; int[] b = [y, y, y]; sleep(a[n - 1]); sleep(b[0]); a[0] = 5; sleep(b[2]); sleep(a[0]);")
     T('vla-then-call', "int n = x % 3; if (n < 1) { n = 1; } int a[n]; a[n - 1] = 7; sleep(mk(y)); sleep(a[n - 1]);", extra='int mk(int v) { int[] t = [v, v, v]; return t[2]; }\n')
